@@ -67,6 +67,18 @@ impl Command for CommandImpl {
                 if source_file && target_file {
                     match create_parent(&target_path) {
                         Ok(_) => {
+                            // the target may name the source through directories that exist only now
+                            let same_path =
+                                match (source_path.canonicalize(), target_path.canonicalize()) {
+                                    (Ok(source), Ok(target)) => source == target,
+                                    _ => false,
+                                };
+                            if same_path {
+                                return CommandResult::Error(
+                                    "Source and target are the same path.".to_string(),
+                                );
+                            }
+
                             let options = fs_extra::file::CopyOptions::new().overwrite(true);
                             match fs_extra::file::move_file(source_path, &target_path, &options) {
                                 Ok(_) => CommandResult::Continue(Some("true".to_string())),
